@@ -709,7 +709,23 @@ fn exec_rescue<H: RH>(t: &[&str]) -> Outcome {
             let w = sp.width;
             let Some(d) = H::jive_sum(&es[..w], &es[w..]) else { return Outcome::ok("bad-op") };
             let expect: Vec<u128> = (0..4).map(|i| addmod(addmod(res[i], res[4 + i], m), addmod(res[w + i], res[w + 4 + i], m), m)).collect();
-            judge::<H>(Outcome::ok(join(&canon(&d))), "jivesum", &d, &expect, true)
+            let mut o = judge::<H>(Outcome::ok(join(&canon(&d))), "jivesum", &d, &expect, true);
+            // the digest is a value like any other: every word equals new(residue), it hashes like the canonical digest
+            // and survives a byte round trip
+            let c: Vec<H::F> = expect.iter().map(|v| H::F::from_word(*v)).collect();
+            if d.iter().zip(&c).any(|(x, y)| x != y || x.raw_word() != y.raw_word()) {
+                o = o.fail(format!("{}.jivesum.noncanonical-word", H::NAME), format!("internal words {} instead of {}", join(&d.iter().map(|x| x.raw_word()).collect::<Vec<_>>()), join(&c.iter().map(|x| x.raw_word()).collect::<Vec<_>>())));
+            }
+            match guarded(|| H::hash_base(&d)) {
+                Ok(hd) if canon(&hd) == canon(&H::hash_base(&c)) => {},
+                Ok(_) => o = o.fail(format!("{}.jivesum.rehash", H::NAME), "hash_elements of the digest's elements differs from that of the same residues"),
+                Err(info) => o = o.fail(format!("{}.jivesum.rehash", H::NAME), format!("hash_elements of the digest's elements panics: {}", info)),
+            }
+            match H::digest_de(&H::digest_ser(&d)) {
+                Ok((back, 0)) if H::digest_eq(&back, &d) => {},
+                _ => o = o.fail(format!("{}.jivesum.roundtrip", H::NAME), "the digest differs from itself after write_into / read_from"),
+            }
+            o
         },
         ["digread", h] => {
             let bytes = unhex(h);
@@ -1254,6 +1270,66 @@ fn gen_rescue<H: RH>(rng: &mut Rng, tier: Tier, n: usize, emit: &mut dyn FnMut(S
         for _ in 0..(if big { 400 } else { 60 }) {
             let st: Vec<u128> = (0..2 * wd).map(|_| if rng.chance(1, 4) { *rng.pick(&words) } else { rng.u128() % rawlim }).collect();
             emit(format!("{} jivesum {}", h, join(&st)));
+        }
+        // column sums by construction: the four INTERNAL words that are added for output word i (initial[i],
+        // initial[4+i], final[i], final[4+i]) sum, as integers, to a value just below / at / above every multiple of
+        // M, of 2^64 and of 2^64 - 2^32 and their neighbours 2^64k - 2^32 (where a lazy or single reduction of the
+        // integer sum leaves a word in [M, 2^64), wraps, or needs a second subtraction), and to the maximum 4M - 4 - k;
+        // random boundary limbs never land there (a window of 2^32 values per multiple)
+        let two64 = 1u128 << 64;
+        let mut targets: Vec<u128> = vec![];
+        for k in 1..=4u128 {
+            for d in 0..4u128 {
+                for b in [k * m, k * two64, k * (two64 - (1 << 32)), k * two64 - (1 << 32), k * two64 - (1 << 33), k * m + (1 << 32), k * m - (1 << 32)] {
+                    targets.push(b + d);
+                    targets.push(b.wrapping_sub(d + 1));
+                }
+            }
+            targets.push(4 * m - 4 - (k - 1));
+        }
+        // the middle of each window [kM, k 2^64) and random points of it
+        for k in 1..=3u128 {
+            targets.push(k * m + (1 << 31));
+            for _ in 0..3 {
+                targets.push(k * m + (rng.u64() as u128 % ((1 << 32) - 1)) * k.min(1));
+            }
+        }
+        targets.retain(|t| *t <= 4 * m - 4);
+        targets.sort();
+        targets.dedup();
+        for t in &targets {
+            for i in 0..4usize {
+                for split in 0..2 {
+                    // four words below M with the sum t: the first three at the low end, at the high end or anywhere in
+                    // their admissible range, the last one is what remains
+                    let mut rem = *t;
+                    let mut ws = [0u128; 4];
+                    for j in 0..3 {
+                        let left = (3 - j) as u128;
+                        let lo = rem.saturating_sub(left * (m - 1));
+                        let hi = rem.min(m - 1);
+                        let w = match (split + j + i) % 3 {
+                            0 => lo + rng.u128() % (hi - lo + 1),
+                            1 => hi - (rng.u64() as u128 % (hi - lo + 1).min(5)),
+                            _ => lo + (rng.u64() as u128 % (hi - lo + 1).min(5)),
+                        };
+                        ws[j] = w;
+                        rem -= w;
+                    }
+                    ws[3] = rem;
+                    // a random order of the four summands
+                    for j in (1..4).rev() {
+                        ws.swap(j, rng.below(j as u64 + 1) as usize);
+                    }
+                    let mut st: Vec<u128> = (0..2 * wd).map(|_| rng.u128() % rawlim).collect();
+                    st[i] = ws[0];
+                    st[4 + i] = ws[1];
+                    st[wd + i] = ws[2];
+                    st[wd + 4 + i] = ws[3];
+                    debug_assert!(ws.iter().all(|w| *w < m) && ws.iter().sum::<u128>() == *t);
+                    emit(format!("{} jivesum {}", h, join(&st)));
+                }
+            }
         }
     }
     let dl = if m == M62 { 31 } else { 32 };
